@@ -610,3 +610,5 @@ def run(ctx, led):
              "calls are root bounds (TYPESTATE, shared with C10)", v_level, ctx)
     from . import C09 as _C09
     run_rule(led, "V5", "a reified propagator forgets its cached inconsistency on every synchronise, so a conflict of an abandoned branch cannot fix the reification literal at the root (shared with C09-R3)", _C09.r3, ctx)
+    from . import fznrules as _fz
+    run_rule(led, "V6", "ZIP-ALIGNMENT: weights and variables are paired position by position (shared with C13-F11)", _fz.zip_alignment, ctx)
